@@ -405,12 +405,511 @@ fn filters_family(ctx: &Ctx, report: &mut Report) -> Result<(), String> {
     Ok(())
 }
 
+
+// ---------------------------------------------------------------------------------------
+// light-client sessions: the production handlers that SERVE roots and proofs
+
+/// One request to `LightClientProtocol::received`; Ok(reply) or Err(()) when the handler panicked
+fn lc_ask(node: &Node, proto: &mut ckb_light_client_protocol_server::LightClientProtocol, content: impl Into<packed::LightClientMessageUnion>) -> Result<Option<packed::LightClientMessage>, ()> {
+    use ckb_network::CKBProtocolHandler;
+    let msg = packed::LightClientMessage::new_builder().set(content).build();
+    let nc = Arc::new(crate::props::c16::MockNc { sent: Default::default(), banned: Default::default() });
+    let nc2: Arc<dyn ckb_network::CKBProtocolContext + Sync> = nc.clone();
+    let handle = node.shared.async_handle().clone();
+    let res = std::panic::catch_unwind(std::panic::AssertUnwindSafe(|| handle.block_on(proto.received(nc2, 1usize.into(), msg.as_bytes()))));
+    if res.is_err() {
+        return Err(());
+    }
+    let sent = nc.sent.lock().unwrap();
+    Ok(sent.last().and_then(|(_, d)| packed::LightClientMessage::from_compatible_slice(d).ok()))
+}
+
+struct LcView<'a> {
+    tag: &'a str,
+    main: &'a [BlockView],
+    by_hash: &'a HashMap<Byte32, BlockView>,
+    all: Vec<&'a BlockView>,
+}
+
+impl<'a> LcView<'a> {
+    /// the last header of a reply must be a verifiable header of `want` whose parent chain root is the
+    /// reference root over want's ancestors; returns that root
+    fn check_last(&self, vh: &packed::VerifiableHeader, want: &BlockView, what: &str, label: &Value, report: &mut Report) -> Option<packed::HeaderDigest> {
+        report.evaluations += 1;
+        if vh.header().as_slice() != want.data().header().as_slice() {
+            report.violation("light-client/last-header", format!("{}: {what}: the reply's last header is block {} {}, expected block {} {}", self.tag, vh.header().into_view().number(), vh.header().into_view().hash(), want.number(), want.hash()), label.clone());
+            return None;
+        }
+        let v: ckb_types::utilities::merkle_mountain_range::VerifiableHeader = vh.clone().into();
+        if !v.is_valid(0) {
+            report.violation("light-client/last-header-not-verifiable", format!("{}: {what}: uncles hash / extension / parent chain root of the reply's last header do not match what the header commits to", self.tag), label.clone());
+            return None;
+        }
+        let n = want.number() as usize;
+        if n == 0 {
+            return Some(Default::default());
+        }
+        let chain = chain_of(want, self.by_hash);
+        let root = ref_root(&chain, n - 1).ok()?;
+        if vh.parent_chain_root().as_slice() != root.as_slice() {
+            report.violation("light-client/parent-chain-root", format!("{}: {what}: the parent chain root served with block {} is not the MMR root over its {} ancestors", self.tag, want.number(), n), label.clone());
+            return None;
+        }
+        Some(root)
+    }
+
+    /// the served proof proves `headers` (ancestors of `last` on its own chain) against `root`, and
+    /// against no other fork's root
+    fn check_proof(&self, last: &BlockView, root: &packed::HeaderDigest, proof: packed::HeaderDigestVec, headers: &[ckb_types::core::HeaderView], what: &str, label: &Value, report: &mut Report) {
+        use ckb_merkle_mountain_range::{MerkleProof, leaf_index_to_mmr_size, leaf_index_to_pos};
+        report.evaluations += 1;
+        let chain = chain_of(last, self.by_hash);
+        let l = last.number();
+        for h in headers {
+            if h.number() >= l || chain[h.number() as usize].hash() != h.hash() {
+                report.violation("light-client/proved-header-not-an-ancestor", format!("{}: {what}: header {} {} is served as proved but is not an ancestor of the last block {} {}", self.tag, h.number(), h.hash(), l, last.hash()), label.clone());
+                return;
+            }
+        }
+        if headers.is_empty() {
+            return;
+        }
+        let items: Vec<packed::HeaderDigest> = proof.into_iter().collect();
+        let mk = || MerkleProof::<packed::HeaderDigest, MergeHeaderDigest>::new(leaf_index_to_mmr_size(l - 1), items.clone());
+        let leaves: Vec<(u64, packed::HeaderDigest)> = headers.iter().map(|h| (leaf_index_to_pos(h.number()), h.digest())).collect();
+        match mk().verify(root.clone(), leaves.clone()) {
+            Ok(true) => {
+                report.nontrivial.insert(fp(&(self.tag, last.hash().as_slice().to_vec(), headers.iter().map(|h| h.number()).collect::<Vec<_>>())));
+            }
+            other => {
+                report.violation("light-client/proof-does-not-verify", format!("{}: {what}: the served proof for headers {:?} under last block {} does not verify against the committed root: {other:?}", self.tag, headers.iter().map(|h| h.number()).collect::<Vec<_>>(), l), label.clone());
+                return;
+            }
+        }
+        // no other fork: a block of the same height on another fork commits another root
+        for s in self.all.iter().filter(|x| x.number() == l && x.hash() != last.hash()) {
+            let c = chain_of(s, self.by_hash);
+            if let Ok(sr) = ref_root(&c, c.len() - 2) {
+                if sr.as_slice() != root.as_slice() && matches!(mk().verify(sr, leaves.clone()), Ok(true)) {
+                    report.violation("light-client/proof-verifies-against-other-fork", format!("{}: {what}: the served proof also verifies against the root committed by the sibling block {}", self.tag, s.hash()), label.clone());
+                }
+            }
+        }
+    }
+}
+
+/// The handlers of the light-client protocol server (`LightClientProtocol::received` with a recording
+/// context) are asked, after every delivery of a history with two reorganisations, for
+/// - GetBlocksProof: every last block (every main-chain block incl. genesis, a side-branch block, an
+///   unknown hash) x block-hash lists (every single main-chain block, neighbouring pairs, a
+///   side-branch block, an unknown hash, mixtures),
+/// - GetLastStateProof: every last block x every start number (with the main chain's hash at that
+///   number, or a side-branch hash: the client was on another fork) x last_n in {0, 1, 3, 100} x
+///   difficulty boundaries at and between the total difficulties of the chain x sample lists,
+/// - GetTransactionsProof: every last block x every transaction of the universe (main chain, side
+///   branch only, unknown).
+/// A handler must not panic.  Whatever it replies must be sound: the last header is the verifiable
+/// header of the requested block (or of the tip when the request names a block off the main chain)
+/// with the reference root over its ancestors; every header served as proved is an ancestor of that
+/// block; the proof verifies against the committed root and against no sibling fork's root; a
+/// transaction served as proved is in the block named, under its transactions root.
+fn lc_family(ctx: &Ctx, report: &mut Report) -> Result<(), String> {
+    use ckb_light_client_protocol_server::LightClientProtocol;
+    let cons = consensus(&WorldOpts::default());
+    set_time(time_for_height(40));
+    let mut forge = Forge::new(&ctx.scratch.join("c19-forge-lc"), &cons)?;
+    let u = c18::build(&mut forge, &cons)?;
+    let mut by_hash: HashMap<Byte32, BlockView> = HashMap::new();
+    by_hash.insert(cons.genesis_hash(), cons.genesis_block().clone());
+    for x in u.a.iter().chain(u.b.iter()) {
+        by_hash.insert(x.hash(), x.clone());
+    }
+    let dir = ctx.scratch.join("c19-lc");
+    let _ = std::fs::remove_dir_all(&dir);
+    let node = Node::boot(&dir, &NodeOpts::new(cons.clone()))?;
+    node.wait_startup()?;
+    let mut proto = LightClientProtocol::new(node.shared.clone());
+    let order: Vec<BlockView> = u.a[..3].iter().chain(u.b[..4].iter()).chain(u.a[3..].iter()).cloned().collect();
+    let unknown = Byte32::new([0x5A; 32]);
+    let label = json!({"family": "light-client"});
+    let mut asked = 0u64;
+    let mut replies = 0u64;
+    let thorough = ctx.tier.is_thorough();
+    for (step, blk) in order.iter().enumerate() {
+        if !deliver(&node, blk, "light-client family", &label, report) {
+            break;
+        }
+        report.transitions += 1;
+        // quick: the request grid after the first reorganisation, after the second and at the end
+        if !thorough && ![5usize, 6, 7, order.len() - 1].contains(&step) {
+            continue;
+        }
+        if ctx.out_of_time() {
+            report.cap_hit = Some("light-client family: wall budget".into());
+            break;
+        }
+        let main = node.main_chain();
+        let tip = main.last().unwrap().clone();
+        let side: Vec<&BlockView> = u.a.iter().chain(u.b.iter()).filter(|x| main.get(x.number() as usize).map(|m| m.hash() != x.hash()).unwrap_or(true) && by_hash.contains_key(&x.hash()) && node.shared.store().get_block_header(&x.hash()).is_some()).collect();
+        let view = LcView { tag: "light-client", main: &main, by_hash: &by_hash, all: u.a.iter().chain(u.b.iter()).collect() };
+        let lasts: Vec<Byte32> = main.iter().map(|b| b.hash()).chain(side.first().map(|b| b.hash())).chain(std::iter::once(unknown.clone())).collect();
+        let on_main = |h: &Byte32| main.iter().find(|b| &b.hash() == h);
+        // ------------------------------------------------------------ GetBlocksProof
+        let mut lists: Vec<Vec<Byte32>> = vec![];
+        for (i, b) in main.iter().enumerate() {
+            lists.push(vec![b.hash()]);
+            if i + 1 < main.len() {
+                lists.push(vec![b.hash(), main[i + 1].hash()]);
+            }
+        }
+        if let Some(s) = side.first() {
+            lists.push(vec![s.hash()]);
+            lists.push(vec![main[1].hash(), s.hash()]);
+        }
+        lists.push(vec![unknown.clone()]);
+        lists.push(vec![main[0].hash(), unknown.clone(), main[1].hash()]);
+        for last in &lasts {
+            for list in &lists {
+                let what = format!("after delivery {step}: GetBlocksProof(last = {}, blocks = {:?})", on_main(last).map(|b| format!("main#{}", b.number())).unwrap_or_else(|| last.to_string()), list.iter().map(|h| on_main(h).map(|b| format!("main#{}", b.number())).unwrap_or_else(|| "off-main".into())).collect::<Vec<_>>());
+                let req = packed::GetBlocksProof::new_builder().last_hash(last.clone()).block_hashes(list.clone().pack()).build();
+                asked += 1;
+                let reply = match lc_ask(&node, &mut proto, req) {
+                    Err(()) => {
+                        report.violation("light-client/handler-panic", format!("{what}: LightClientProtocol::received panicked"), label.clone());
+                        continue;
+                    }
+                    Ok(None) => continue,
+                    Ok(Some(r)) => r,
+                };
+                replies += 1;
+                match reply.to_enum() {
+                    // (the V1 reply travels as a SendBlocksProof with two extra fields)
+                    packed::LightClientMessageUnion::SendBlocksProof(r0) if r0.has_extra_fields() => {
+                        let Ok(r) = packed::SendBlocksProofV1::from_compatible_slice(r0.as_slice()) else {
+                            report.violation("light-client/unexpected-reply", format!("{what}: the reply has extra fields but is no SendBlocksProofV1"), label.clone());
+                            continue;
+                        };
+                        let Some(lb) = on_main(last) else {
+                            report.violation("light-client/proof-for-a-block-off-the-main-chain", format!("{what}: a proof is served although the last hash is not on the main chain"), label.clone());
+                            continue;
+                        };
+                        let Some(root) = view.check_last(&r.last_header(), lb, &what, &label, report) else { continue };
+                        let headers: Vec<ckb_types::core::HeaderView> = r.headers().into_iter().map(|h| h.into_view()).collect();
+                        // proved = the requested hashes on the main chain, missing = the others
+                        let want_found: Vec<Byte32> = list.iter().filter(|h| on_main(h).is_some()).cloned().collect();
+                        let want_missing: Vec<Byte32> = list.iter().filter(|h| on_main(h).is_none()).cloned().collect();
+                        if headers.iter().map(|h| h.hash()).collect::<Vec<_>>() != want_found || r.missing_block_hashes().into_iter().collect::<Vec<_>>() != want_missing {
+                            report.violation("light-client/found-missing-split", format!("{what}: proved headers {:?}, missing {} hashes; on the main chain are {} of the requested", headers.iter().map(|h| h.number()).collect::<Vec<_>>(), r.missing_block_hashes().len(), want_found.len()), label.clone());
+                        }
+                        for (k, h) in headers.iter().enumerate() {
+                            let b = &by_hash[&h.hash()];
+                            if r.blocks_uncles_hash().get(k).map(|x| x.as_slice().to_vec()) != Some(b.calc_uncles_hash().as_slice().to_vec()) || r.blocks_extension().get(k).and_then(|e| e.to_opt()).map(|e| e.raw_data()) != b.extension().map(|e| e.raw_data()) {
+                                report.violation("light-client/uncles-hash-or-extension", format!("{what}: uncles hash / extension served for block {} are not the block's", h.number()), label.clone());
+                            }
+                        }
+                        view.check_proof(lb, &root, r.proof(), &headers, &what, &label, report);
+                    }
+                    packed::LightClientMessageUnion::SendBlocksProof(r) => {
+                        // the tip state: only for a last hash off the main chain
+                        if on_main(last).is_some() {
+                            report.violation("light-client/tip-state-for-a-main-chain-block", format!("{what}: answered with the tip state"), label.clone());
+                        }
+                        view.check_last(&r.last_header(), &tip, &what, &label, report);
+                        if !r.headers().is_empty() || !r.proof().is_empty() {
+                            report.violation("light-client/tip-state-with-proof", format!("{what}: the tip state carries headers or a proof"), label.clone());
+                        }
+                    }
+                    other => report.violation("light-client/unexpected-reply", format!("{what}: answered with {}", other.item_name()), label.clone()),
+                }
+            }
+        }
+        // ------------------------------------------------------------ GetLastStateProof
+        let td: Vec<ckb_types::U256> = main.iter().map(|b| node.shared.store().get_block_ext(&b.hash()).map(|e| e.total_difficulty).unwrap_or_default()).collect();
+        let one = ckb_types::U256::from(1u64);
+        for last in &lasts {
+            let l = on_main(last).map(|b| b.number() as usize).unwrap_or(main.len() - 1);
+            for s in 0..=l {
+                let mut starts = vec![main[s].hash()];
+                if let Some(x) = side.iter().find(|x| x.number() as usize == s) {
+                    starts.push(x.hash());
+                }
+                for start_hash in starts {
+                    for last_n in [0u64, 1, 3, 100] {
+                        // boundaries: the total difficulty of every second block from the start on, one above the
+                        // last block's, and one in between two blocks
+                        let mut bounds: Vec<ckb_types::U256> = (s..=l).step_by(2).map(|k| td[k].clone()).collect();
+                        bounds.push(td[l].clone() + one.clone());
+                        bounds.push(td[s].clone() + one.clone());
+                        for boundary in bounds {
+                            let mut samples: Vec<Vec<ckb_types::U256>> = vec![vec![]];
+                            if s + 2 <= l {
+                                samples.push(vec![td[s].clone() + one.clone()]);
+                                samples.push(vec![td[s].clone(), td[s + 1].clone() + one.clone()]);
+                            }
+                            for diffs in samples {
+                                let what = format!("after delivery {step}: GetLastStateProof(last = {}, start = #{s}{}, last_n = {last_n}, boundary = {boundary:#x}, samples = {})", on_main(last).map(|b| format!("main#{}", b.number())).unwrap_or_else(|| "off-main".into()), if start_hash == main[s].hash() { "" } else { " (side-branch hash)" }, diffs.len());
+                                let req = packed::GetLastStateProof::new_builder()
+                                    .last_hash(last.clone())
+                                    .start_hash(start_hash.clone())
+                                    .start_number(s as u64)
+                                    .last_n_blocks(last_n)
+                                    .difficulty_boundary(Pack::pack(&boundary))
+                                    .difficulties(diffs.iter().map(|d| Pack::pack(d)).collect::<Vec<packed::Uint256>>().pack())
+                                    .build();
+                                asked += 1;
+                                let reply = match lc_ask(&node, &mut proto, req) {
+                                    Err(()) => {
+                                        report.violation("light-client/handler-panic", format!("{what}: LightClientProtocol::received panicked"), label.clone());
+                                        continue;
+                                    }
+                                    Ok(None) => continue,
+                                    Ok(Some(r)) => r,
+                                };
+                                replies += 1;
+                                let packed::LightClientMessageUnion::SendLastStateProof(r) = reply.to_enum() else {
+                                    report.violation("light-client/unexpected-reply", format!("{what}: answered with another message"), label.clone());
+                                    continue;
+                                };
+                                let Some(lb) = on_main(last) else {
+                                    view.check_last(&r.last_header(), &tip, &what, &label, report);
+                                    if !r.headers().is_empty() || !r.proof().is_empty() {
+                                        report.violation("light-client/tip-state-with-proof", format!("{what}: the tip state carries headers or a proof"), label.clone());
+                                    }
+                                    continue;
+                                };
+                                let Some(root) = view.check_last(&r.last_header(), lb, &what, &label, report) else { continue };
+                                let mut headers = vec![];
+                                let mut sound = true;
+                                for vh in r.headers().into_iter() {
+                                    let h = vh.header().into_view();
+                                    match by_hash.get(&h.hash()) {
+                                        Some(b) => {
+                                            if view.check_last(&vh, b, &format!("{what}: sampled header {}", h.number()), &label, report).is_none() {
+                                                sound = false;
+                                            }
+                                        }
+                                        None => {
+                                            report.violation("light-client/unknown-header-served", format!("{what}: a header that is no block of the universe is served"), label.clone());
+                                            sound = false;
+                                        }
+                                    }
+                                    headers.push(h);
+                                }
+                                if sound {
+                                    view.check_proof(lb, &root, r.proof(), &headers, &what, &label, report);
+                                }
+                            }
+                        }
+                    }
+                }
+            }
+        }
+        // ------------------------------------------------------------ GetTransactionsProof
+        let mut txs: Vec<(Byte32, Option<usize>)> = vec![];
+        for b in u.a.iter().chain(u.b.iter()) {
+            for t in b.transactions().iter().skip(1) {
+                let at = main.iter().position(|m| m.transactions().iter().any(|x| x.hash() == t.hash()));
+                if !txs.iter().any(|x| x.0 == t.hash()) {
+                    txs.push((t.hash(), at));
+                }
+            }
+        }
+        txs.push((unknown.clone(), None));
+        let mut tx_lists: Vec<Vec<Byte32>> = txs.iter().map(|t| vec![t.0.clone()]).collect();
+        tx_lists.push(txs.iter().map(|t| t.0.clone()).collect());
+        for last in &lasts {
+            for list in &tx_lists {
+                let what = format!("after delivery {step}: GetTransactionsProof(last = {}, {} transactions)", on_main(last).map(|b| format!("main#{}", b.number())).unwrap_or_else(|| "off-main".into()), list.len());
+                let req = packed::GetTransactionsProof::new_builder().last_hash(last.clone()).tx_hashes(list.clone().pack()).build();
+                asked += 1;
+                let reply = match lc_ask(&node, &mut proto, req) {
+                    Err(()) => {
+                        report.violation("light-client/handler-panic", format!("{what}: LightClientProtocol::received panicked"), label.clone());
+                        continue;
+                    }
+                    Ok(None) => continue,
+                    Ok(Some(r)) => r,
+                };
+                replies += 1;
+                match reply.to_enum() {
+                    packed::LightClientMessageUnion::SendTransactionsProof(r0) if r0.has_extra_fields() => {
+                        let Ok(r) = packed::SendTransactionsProofV1::from_compatible_slice(r0.as_slice()) else {
+                            report.violation("light-client/unexpected-reply", format!("{what}: the reply has extra fields but is no SendTransactionsProofV1"), label.clone());
+                            continue;
+                        };
+                        let Some(lb) = on_main(last) else {
+                            report.violation("light-client/proof-for-a-block-off-the-main-chain", format!("{what}: a proof is served although the last hash is not on the main chain"), label.clone());
+                            continue;
+                        };
+                        let Some(root) = view.check_last(&r.last_header(), lb, &what, &label, report) else { continue };
+                        let mut headers = vec![];
+                        let mut served: Vec<Byte32> = vec![];
+                        for fb in r.filtered_blocks().into_iter() {
+                            let h = fb.header().into_view();
+                            headers.push(h.clone());
+                            let Some(b) = main.iter().find(|m| m.hash() == h.hash()) else {
+                                report.violation("light-client/transaction-block-off-the-main-chain", format!("{what}: a transaction is proved inside block {} {}, which is not on the main chain", h.number(), h.hash()), label.clone());
+                                continue;
+                            };
+                            // the merkle proof binds the served transactions to the block's transactions root
+                            let leaves: Vec<Byte32> = fb.transactions().into_iter().map(|t| t.calc_tx_hash()).collect();
+                            served.extend(leaves.iter().cloned());
+                            let indices: Vec<u32> = fb.proof().indices().into_iter().map(|i| i.into()).collect();
+                            let lemmas: Vec<Byte32> = fb.proof().lemmas().into_iter().collect();
+                            let proof = ckb_types::utilities::MerkleProof::new(indices, lemmas);
+                            let ok = proof.root(&leaves).map(|raw| ckb_types::utilities::merkle_root(&[raw, fb.witnesses_root()]) == b.transactions_root()).unwrap_or(false);
+                            report.evaluations += 1;
+                            if !ok || leaves.iter().any(|t| !b.transactions().iter().any(|x| &x.hash() == t)) {
+                                report.violation("light-client/transaction-proof", format!("{what}: the merkle proof of the transactions served for block {} does not lead to its transactions root", h.number()), label.clone());
+                            }
+                        }
+                        let want_found: std::collections::BTreeSet<Vec<u8>> = list.iter().filter(|t| txs.iter().any(|x| &x.0 == *t && x.1.is_some())).map(|t| t.as_slice().to_vec()).collect();
+                        let got_found: std::collections::BTreeSet<Vec<u8>> = served.iter().map(|t| t.as_slice().to_vec()).collect();
+                        let got_missing: std::collections::BTreeSet<Vec<u8>> = r.missing_tx_hashes().into_iter().map(|t| t.as_slice().to_vec()).collect();
+                        let want_missing: std::collections::BTreeSet<Vec<u8>> = list.iter().filter(|t| !want_found.contains(t.as_slice())).map(|t| t.as_slice().to_vec()).collect();
+                        if want_found != got_found || want_missing != got_missing {
+                            report.violation("light-client/found-missing-split", format!("{what}: {} transactions proved, {} missing; {} of the requested are committed on the main chain", got_found.len(), got_missing.len(), want_found.len()), label.clone());
+                        }
+                        view.check_proof(lb, &root, r.proof(), &headers, &what, &label, report);
+                    }
+                    packed::LightClientMessageUnion::SendTransactionsProof(r) => {
+                        if on_main(last).is_some() {
+                            report.violation("light-client/tip-state-for-a-main-chain-block", format!("{what}: answered with the tip state"), label.clone());
+                        }
+                        view.check_last(&r.last_header(), &tip, &what, &label, report);
+                    }
+                    other => report.violation("light-client/unexpected-reply", format!("{what}: answered with {}", other.item_name()), label.clone()),
+                }
+            }
+        }
+        report.states.insert(fp(&("light-client", step)));
+        let _ = view.main;
+    }
+    report.count("light_client_requests", asked);
+    report.count("light_client_replies_judged", replies);
+    report.outcomes.insert(fp(&("light-client", replies > 0)));
+    report.traces += 1;
+    drop(proto);
+    node.shutdown();
+    Ok(())
+}
+
+/// A reorganisation lands while a light-client request is being served: between the handler's
+/// look-up of the request in its snapshot and the construction of the proof (gate in `reply_proof`)
+/// the other branch overtakes.  Whatever is then served must still be sound for the block the reply
+/// names as last: its verifiable header with the root over ITS ancestors, proved headers that are
+/// its ancestors, a proof that verifies against the root it commits.
+fn lc_race_family(ctx: &Ctx, report: &mut Report) -> Result<(), String> {
+    use ckb_light_client_protocol_server::LightClientProtocol;
+    let cons = consensus(&WorldOpts::default());
+    set_time(time_for_height(40));
+    let mut forge = Forge::new(&ctx.scratch.join("c19-forge-lcr"), &cons)?;
+    let u = c18::build(&mut forge, &cons)?;
+    let mut by_hash: HashMap<Byte32, BlockView> = HashMap::new();
+    by_hash.insert(cons.genesis_hash(), cons.genesis_block().clone());
+    for x in u.a.iter().chain(u.b.iter()) {
+        by_hash.insert(x.hash(), x.clone());
+    }
+    let all: Vec<&BlockView> = u.a.iter().chain(u.b.iter()).collect();
+    for (name, first, second) in [("a-then-b", &u.a[..3], &u.b[..4]), ("b-then-a", &u.b[..3], &u.a[..4])] {
+        for kind in 0..3u8 {
+            let dir = ctx.scratch.join(format!("c19-lcr-{name}-{kind}"));
+            let _ = std::fs::remove_dir_all(&dir);
+            let node = Arc::new(Node::boot(&dir, &NodeOpts::new(cons.clone()))?);
+            node.wait_startup()?;
+            let kind_name = ["GetBlocksProof", "GetLastStateProof", "GetTransactionsProof"][kind as usize];
+            let label = json!({"family": "light-client-race", "order": name, "request": kind_name});
+            let mut ok = true;
+            for b in first.iter() {
+                ok = ok && deliver(&node, b, "light-client race family", &label, report);
+            }
+            if !ok {
+                continue;
+            }
+            let last = first.last().unwrap().clone();
+            let main: Vec<BlockView> = node.main_chain();
+            let view = LcView { tag: "light-client-race", main: &main, by_hash: &by_hash, all: all.clone() };
+            let mut proto = LightClientProtocol::new(node.shared.clone());
+            let fired = Arc::new(Mutex::new(false));
+            {
+                let node2 = Arc::clone(&node);
+                let fired2 = Arc::clone(&fired);
+                let pending: Vec<BlockView> = second.to_vec();
+                ckb_light_client_protocol_server::verif::set_gate(Some(Box::new(move || {
+                    let mut f = fired2.lock().unwrap();
+                    if !*f {
+                        *f = true;
+                        for blk in &pending {
+                            let _ = node2.process(blk);
+                        }
+                    }
+                })));
+            }
+            let what = format!("{name}: {} for the tip {} while the other branch overtakes between the handler's look-up and the construction of the proof", ["GetBlocksProof", "GetLastStateProof", "GetTransactionsProof"][kind as usize], last.number());
+            let td_last = node.shared.store().get_block_ext(&last.hash()).map(|e| e.total_difficulty).unwrap_or_default();
+            let tx = first.iter().flat_map(|b| b.transactions().into_iter().skip(1)).next();
+            let reply = match kind {
+                0 => lc_ask(&node, &mut proto, packed::GetBlocksProof::new_builder().last_hash(last.hash()).block_hashes(vec![first[0].hash()].pack()).build()),
+                1 => lc_ask(&node, &mut proto, packed::GetLastStateProof::new_builder().last_hash(last.hash()).start_hash(cons.genesis_hash()).start_number(0u64).last_n_blocks(100u64).difficulty_boundary(Pack::pack(&(td_last + ckb_types::U256::from(1u64)))).build()),
+                _ => match &tx {
+                    Some(t) => lc_ask(&node, &mut proto, packed::GetTransactionsProof::new_builder().last_hash(last.hash()).tx_hashes(vec![t.hash()].pack()).build()),
+                    None => Ok(None),
+                },
+            };
+            ckb_light_client_protocol_server::verif::set_gate(None);
+            report.transitions += 1;
+            let did_fire = *fired.lock().unwrap();
+            if !did_fire && !(kind == 2 && tx.is_none()) {
+                return Err(format!("{what}: the gate was never reached"));
+            }
+            if node.tip().hash() != second.last().unwrap().hash() {
+                report.violation("root/valid-block-refused", format!("{what}: the other branch did not become the main chain"), label.clone());
+            }
+            match reply {
+                Err(()) => report.violation("light-client/handler-panic", format!("{what}: LightClientProtocol::received panicked"), label.clone()),
+                Ok(None) => {
+                    report.outcomes.insert(fp(&("lc-race", "no-reply")));
+                }
+                Ok(Some(r)) => {
+                    report.outcomes.insert(fp(&("lc-race", "reply")));
+                    let (vh, proof, headers): (packed::VerifiableHeader, packed::HeaderDigestVec, Vec<ckb_types::core::HeaderView>) = match r.to_enum() {
+                        packed::LightClientMessageUnion::SendBlocksProof(r0) => (r0.last_header(), r0.proof(), r0.headers().into_iter().map(|h| h.into_view()).collect()),
+                        packed::LightClientMessageUnion::SendLastStateProof(r0) => (r0.last_header(), r0.proof(), r0.headers().into_iter().map(|h| h.header().into_view()).collect()),
+                        packed::LightClientMessageUnion::SendTransactionsProof(r0) => (r0.last_header(), r0.proof(), r0.filtered_blocks().into_iter().map(|f| f.header().into_view()).collect()),
+                        _ => {
+                            report.violation("light-client/unexpected-reply", format!("{what}: unexpected reply"), label.clone());
+                            continue;
+                        }
+                    };
+                    // the reply names its last block itself: the requested one, or the (new) tip
+                    let named = vh.header().into_view().hash();
+                    let Some(lb) = by_hash.get(&named) else {
+                        report.violation("light-client/last-header", format!("{what}: the reply's last header is no block of the universe"), label.clone());
+                        continue;
+                    };
+                    if let Some(root) = view.check_last(&vh, lb, &what, &label, report) {
+                        view.check_proof(lb, &root, proof, &headers, &what, &label, report);
+                    }
+                }
+            }
+            report.states.insert(fp(&("lc-race", name, kind)));
+            report.traces += 1;
+            drop(proto);
+            match Arc::try_unwrap(node) {
+                Ok(n) => n.shutdown(),
+                Err(_) => return Err("node still referenced by the gate".into()),
+            }
+        }
+    }
+    Ok(())
+}
+
 pub fn meta(_tier: Tier) -> Meta {
     Meta {
         id: "C19",
         level: "model_checking",
-        rule: "roots: two universes (flat world: script-bearing branches of 6 and 5 blocks from genesis; dynamic-difficulty world: common block, branch A of 6 fast blocks and branch B of 4 slow ones where B is heavier) - every block of every fork must commit the hash of the root of an in-memory MMR over its ancestors' header digests; blocks are delivered to a real node (thorough: in every interleaving of the two flat branches, 462 orders; always: A then B, B then A, and A-partly / B / rest of A so that the second reorg re-attaches verified blocks) and after every delivery the store-backed MMR root for every height equals the in-memory one, and for the tip every leaf set of size <= 3 (all sets up to 9 leaves, boundary sets beyond) gets a proof that verifies against the committed root, fails against the root committed by the sibling fork at the same height, and does not verify the sibling fork's headers. filters: the real BlockFilter builder on a real node over every first lead 1..4 of the script-bearing universe (two reorganisations): one pass after every k-th delivery (k = 1..4) and, with both branches extended by two empty blocks, for every d = 1..6 and every gate g = 0..d: a1..a_d delivered without a pass, a pass started, b1..b_(d+1) processed at the gate before block g of that pass (the reorg happens while the pass iterates the old main chain), the pass finished, the rest of A delivered (reorg back) and a final pass; after the builder has caught up every main-chain block has a filter that matches every lock / type script hash of its outputs and spent inputs (resolved by a plain map) and filter_hash = blake2b(parent filter hash, hash(filter)) from zero.",
-        assumptions: &["the light-client protocol handlers (GetLastStateProof / GetBlocksProof) are not driven; the claim stops at Snapshot::chain_root_mmr they call", "GCS filters have false positives by construction: only 'every required script matches' is judged"],
+        rule: "roots: two universes (flat world: script-bearing branches of 6 and 5 blocks from genesis; dynamic-difficulty world: common block, branch A of 6 fast blocks and branch B of 4 slow ones where B is heavier) - every block of every fork must commit the hash of the root of an in-memory MMR over its ancestors' header digests; blocks are delivered to a real node (thorough: in every interleaving of the two flat branches, 462 orders; always: A then B, B then A, and A-partly / B / rest of A so that the second reorg re-attaches verified blocks) and after every delivery the store-backed MMR root for every height equals the in-memory one, and for the tip every leaf set of size <= 3 (all sets up to 9 leaves, boundary sets beyond) gets a proof that verifies against the committed root, fails against the root committed by the sibling fork at the same height, and does not verify the sibling fork's headers. filters: the real BlockFilter builder on a real node over every first lead 1..4 of the script-bearing universe (two reorganisations): one pass after every k-th delivery (k = 1..4) and, with both branches extended by two empty blocks, for every d = 1..6 and every gate g = 0..d: a1..a_d delivered without a pass, a pass started, b1..b_(d+1) processed at the gate before block g of that pass (the reorg happens while the pass iterates the old main chain), the pass finished, the rest of A delivered (reorg back) and a final pass; after the builder has caught up every main-chain block has a filter that matches every lock / type script hash of its outputs and spent inputs (resolved by a plain map) and filter_hash = blake2b(parent filter hash, hash(filter)) from zero. light-client sessions: the production handlers (LightClientProtocol::received with a recording context) are asked after deliveries of the there-and-back history (thorough: after every delivery) for GetBlocksProof (every last block incl. genesis, a side-branch block, an unknown hash x every single main-chain block, neighbouring pairs, side-branch / unknown hashes and mixtures), GetLastStateProof (every last block x every start number with the main chain's or a side branch's hash x last_n in {0,1,3,100} x difficulty boundaries at / between the chain's total difficulties x sample lists) and GetTransactionsProof (every last block x every transaction of the universe, unknown, all at once): no handler panics; every reply's last header is the verifiable header of the requested block (the tip for a block off the main chain) with the in-memory MMR root over its ancestors; every header served as proved is an ancestor of it; the proof verifies against that root and against no sibling fork's; served transactions hang under their block's transactions root; found / missing split exact. light-client race: for both orders of the two branches and each request kind, the other branch overtakes at a gate between the handler's look-up and the construction of the proof; the reply must still be sound for the block it names.",
+        assumptions: &["light-client replies are judged for soundness (what is served verifies and belongs to the chain of the block the reply names), not for completeness of sampling (which blocks a GetLastStateProof must include)", "GCS filters have false positives by construction: only 'every required script matches' is judged"],
         bounds: json!({"proof_leaf_sets": "<= 3 leaves", "builder_lags": [1, 2, 3, 4], "gate_positions": "every block number of the pass"}),
     }
 }
@@ -469,6 +968,10 @@ pub fn run(ctx: &Ctx) -> Report {
             let (a, b) = crate::props::c01::dyn_branches(ctx, &cons, 5, 6)?;
             let order: Vec<BlockView> = std::iter::once(a[0].clone()).chain(b.iter().cloned()).chain(a[1..].iter().cloned()).collect();
             roots_family(ctx, "dyn-shorter-heavier", &cons, &a, &b, Some(order), &mut report)?;
+        }
+        if ctx.mine(2) || ctx.shards == 1 {
+            lc_family(ctx, &mut report)?;
+            lc_race_family(ctx, &mut report)?;
         }
         filters_family(ctx, &mut report)
     };
